@@ -32,7 +32,7 @@ import (
 // innermost indexsupply/shovel frames of the two conflicting accesses.
 
 type job struct {
-	Scenario string `json:"scenario"` // a: one task, partitions; b: two tasks one client; c: b + head poller ticks; d: b + growth + reorg
+	Scenario string `json:"scenario"` // a: one task, partitions; b: two tasks one client; c: b + head poller ticks; d: b + growth + reorg; e: phased poller announcements around cached-head reads
 	Shapes   string `json:"shapes"`   // e.g. "L1" or "L1+T1"
 	Batch    int    `json:"batch"`
 	Conc     int    `json:"conc"`
@@ -51,7 +51,7 @@ func init() {
 		ID:        "C18",
 		Level:     "model_checking",
 		Technique: "stateless model checking under the Go race detector: every schedule of the real pipeline enumerated by the controlled scheduler (hand-offs invisible to the detector, modelled primitives annotated with the real happens-before edges) is judged by the detector's happens-before analysis",
-		Rule: "scenarios: (a) one task with concurrency 2..4 (partitioned load), (b) two tasks sharing one source client and its caches with equal and different data plans (headers+logs, blocks, blocks+receipts, blocks+traces) over the same range, (c) = (b) plus the background head poller receiving ticks, (d) = (b) plus head growth and a reorg in flight; " +
+		Rule: "scenarios: (a) one task with concurrency 2..4 (partitioned load), (b) two tasks sharing one source client and its caches with equal and different data plans (headers+logs, blocks, blocks+receipts, blocks+traces) over the same range, (c) = (b) plus the background head poller receiving ticks, (d) = (b) plus head growth and a reorg in flight, (e) = (b) with the head poller announcing one head before and a grown head after the steps that read the cached head; " +
 			"per scenario every schedule with <= 1 preemption and <= 1 partition reordering (thorough: 2). An execution is non-trivial when at least two controlled threads of the code under test ran; distinct = distinct (job, choice sequence).",
 		Assumptions: []string{
 			"the Go race detector (ThreadSanitizer) decides each explored schedule; its report de-duplication means a racing pair is reported once per process, so violations are identified by the pair of source locations, not counted per schedule",
@@ -129,7 +129,8 @@ func jobs(thorough bool) []job {
 			job{Scenario: "b", Shapes: "L1+T1", Batch: 2, Conc: 1}, job{Scenario: "b", Shapes: "T1+R1", Batch: 2, Conc: 1},
 			job{Scenario: "b", Shapes: "L1+L1", Batch: 2, Conc: 1}, job{Scenario: "b", Shapes: "R1+TR1", Batch: 4, Conc: 2},
 			job{Scenario: "c", Shapes: "L1+T1", Batch: 2, Conc: 1},
-			job{Scenario: "d", Shapes: "L1+T1", Batch: 2, Conc: 1})
+			job{Scenario: "d", Shapes: "L1+T1", Batch: 2, Conc: 1},
+			job{Scenario: "e", Shapes: "L1", Batch: 2, Conc: 1})
 		return js
 	}
 	for _, sh := range []string{"L1", "T1", "R1", "TR1"} {
@@ -138,7 +139,7 @@ func jobs(thorough bool) []job {
 		}
 	}
 	pairs := []string{"L1+L1", "L1+T1", "T1+R1", "L1+TR1", "T1+T1", "R1+TR1", "L1+R1"}
-	for _, sc := range []string{"b", "c", "d"} {
+	for _, sc := range []string{"b", "c", "d", "e"} {
 		for i, p := range pairs {
 			js = append(js, job{Scenario: sc, Shapes: p, Batch: 2, Conc: 1, Free: sc == "b" && i < 3}, job{Scenario: sc, Shapes: p, Batch: 4, Conc: 2})
 		}
@@ -230,10 +231,27 @@ func body(w *world.W, j job, p *prep) {
 		return
 	}
 	var ts []*vrt.Thread
+	if j.Scenario == "e" {
+		// phased: the first step starts the head poller; it is then let run until it waits for its first tick, and is
+		// ticked, so that by default it announces a head BEFORE the tasks' later steps read the cached head and
+		// announces a second (grown) head after them: every schedule within the bound around that default is explored
+		w.V.NoPreempt = true // the prefix is scripted; scenarios b and c explore the first step's interleavings
+		first := w.V.GoNamed("task1-first", func() { tasks[0].Step() })
+		w.V.Join(first)
+		w.V.WaitIdle()
+		w.V.NoPreempt = false
+		for _, tk := range w.V.Tickers() {
+			w.V.Tick(tk)
+		}
+	}
 	for i, t := range tasks {
 		t := t
 		ts = append(ts, w.V.GoNamed(fmt.Sprintf("task%d", i+1), func() {
-			for s := 0; s < 2; s++ {
+			steps := 2
+			if j.Scenario == "e" {
+				steps = 1 // one more step each after the phased first step
+			}
+			for s := 0; s < steps; s++ {
 				if j.Free {
 					vrt.Boundary("step")
 				} else {
@@ -257,6 +275,16 @@ func body(w *world.W, j job, p *prep) {
 			}
 		})
 		env.OnlyAt = rpcOrBoundary // a tick only feeds the poller; it commutes with everything but the exchanges
+		ts = append(ts, env)
+	case "e":
+		env := w.V.GoNamed("env", func() {
+			vrt.Yield("env:tick")
+			w.SetChain("node1", p.grown, "grow")
+			for _, tk := range w.V.Tickers() {
+				w.V.Tick(tk)
+			}
+		})
+		env.OnlyAt = rpcOrBoundary
 		ts = append(ts, env)
 	case "d":
 		env := w.V.GoNamed("env", func() {
